@@ -251,6 +251,8 @@ func (q *Query) Build(extraRounds int) (string, []string) {
 
 // Ledger entry: one named obligation, possibly with several path instances.
 type LedgerEntry struct {
+	alphaOverride []byte // bounded stand-ins: alphabet of the enumeration
+	replayInput   string
 	Name      string   `json:"name"`
 	Kind      string   `json:"kind"`
 	Fn        string   `json:"function"`
